@@ -28,12 +28,14 @@ FORMS = [
     ("{y} = {x}++;", ["{y} = {x};", "{x} = {x} + 1;"], True), ("{y} = ++{x};", ["{x} = {x} + 1;", "{y} = {x};"], True),
     ("{y} = {x}--;", ["{y} = {x};", "{x} = {x} - 1;"], True), ("{y} = --{x};", ["{x} = {x} - 1;", "{y} = {x};"], True),
     ("{y} = -{x};", ["{y} = {x} * 2;"], True), ("{y} = +{x};", ["{y} = {x};"], False),
-    ("{y} = !{x};", ["{y} = 1;"], False), ("{y} = sizeof({x});", ["{y} = 8;"], False),
+    ("{y} = !{x};", ["{y} = 1;", "{x} = {x};"], False), ("{y} = sizeof({x});", ["{y} = 8;", "{x} = {x};"], False),
     ("{y} = (int)({x} + {z});", ["{y} = {x} + {z};"], True), ("{y} = (int){x};", ["{y} = {x};"], False),
     ("{y} = (long)({x} * {x});", ["{y} = {x} * {x};"], True),
     ("{y} = (int){x} + {z};", ["{y} = {x} + {z};"], True), ("{y} = {x} - (int){z};", ["{y} = {x} - {z};"], True),
     ("{y} = (int)-{x};", ["{y} = {x} * 2;"], True), ("{y} = (int)5;", ["{y} = 5;"], False), ("{y} = -3;", ["{y} = 3;"], False),
-    ("+{x};", [";"], False), ("-{x};", [";"], False), ("!{x};", [";"], False),
+    # the plain twin keeps the MENTION of the operand (`x = x;` has the identity flow): a mention decides whether a counted loop whose
+    # guard it is is accepted, so dropping it would compare an accepted function with a refused one (false alarm of sweep seed 3)
+    ("+{x};", ["{x} = {x};"], False), ("-{x};", ["{x} = {x};"], False), ("!{x};", ["{x} = {x};"], False),
 ]
 
 
